@@ -263,6 +263,18 @@ pub fn emit_case(out: &mut dyn Write, group: &str, c: &Case, verbose: bool) -> s
         }
     }
 
+    // ---- ownership (C13, C14): canary ledger after the result has been dropped
+    if let Some((created, dropped, live, bad)) = r.ledger {
+        if bad > 0 {
+            let tag = if c.panic_at.is_some() { "C14" } else { "C13" };
+            fails.push(format!("{}:bad-drop(count {}: a value dropped twice or never-initialised memory dropped; created {} dropped {})", tag, bad, created, dropped));
+        }
+        if c.panic_at.is_none() && !panicked && live > 0 {
+            fails.push(format!("C13:leak({} of {} values never dropped)", live, created));
+        }
+        notes.push(format!("LEDGER created={} dropped={} live={} bad={}", created, dropped, live, bad));
+    }
+
     // ---- closure invocations (C05, C09)
     let chain_stage = |s: u32| (s as usize) < c.ops.len() || s == ST_FOR_EACH || s == ST_PRED;
     let got = multiset(r.rec.events.iter().filter(|e| chain_stage(e.stage)).map(|e| (e.stage, e.arg)));
@@ -308,7 +320,7 @@ pub fn emit_case(out: &mut dyn Write, group: &str, c: &Case, verbose: bool) -> s
     if r.rec.reentrancy > 0 {
         fails.push(format!("C05:source-advanced-concurrently({} times)", r.rec.reentrancy));
     }
-    if c.src_kind != 'v' {
+    if c.src_kind == 'k' || c.src_kind == 'u' {
         let mut seen: HashMap<u64, usize> = HashMap::new();
         for p in &r.rec.pulls {
             *seen.entry(p.2).or_insert(0) += 1;
@@ -380,7 +392,7 @@ pub fn emit_case(out: &mut dyn Write, group: &str, c: &Case, verbose: bool) -> s
                 }
             }
         }
-        if c.src_kind != 'v' && !c.has_eager() && !c.term.is_find_family() && !panicked {
+        if (c.src_kind == 'k' || c.src_kind == 'u') && !c.has_eager() && !c.term.is_find_family() && !panicked {
             // bursts of next() by one actor: every maximal burst is a multiple of c except the last
             let last_run = r.rec.runs.len() as u32;
             let pulls: Vec<&(u32, u32, u64)> = r.rec.pulls.iter().filter(|p| p.0 == last_run).collect();
@@ -457,7 +469,7 @@ pub fn emit_case(out: &mut dyn Write, group: &str, c: &Case, verbose: bool) -> s
     let calls = c.calls();
     let query = format!(
         "run src={}:{} calls={} term={} cs={} asg={}",
-        c.src_kind,
+        match c.src_kind { 'V' => 'v', 'K' => 'k', 'U' => 'u', k => k },
         if c.input.is_empty() { "-".to_string() } else { c.input.iter().map(|x| x.to_string()).collect::<Vec<_>>().join(",") },
         if calls.is_empty() { "-".to_string() } else { calls.join(";") },
         c.term.enc(),
@@ -1016,6 +1028,55 @@ pub fn run(out: &mut dyn Write, prop: &str, seed: u64, thorough: bool) -> std::i
                     emit_case(out, "sites", &c, false)?;
                     total_c.set(total_c.get() + 1);
                 }
+            }
+        }
+        "C13" | "C14" => {
+            let with_panic = prop == "C14";
+            let mut t = collects(&mut rng);
+            t.extend([TermD::Count, TermD::ForEach, TermD::CollectX, TermD::Reduce(RedD::Add), TermD::Reduce(RedD::Max), TermD::First, TermD::MinByKey(3), TermD::MaxByKey(4)]);
+            for k in ['v', 's', 'f'] {
+                let pre: Vec<u64> = (0..rng.range(1, 6)).map(|_| rng.below(P)).collect();
+                t.push(TermD::CollectInto(k, pre, rng.below(3) as usize * 5));
+            }
+            for _ in 0..5 {
+                let p = gen_pred(&mut rng);
+                t.extend([TermD::Find(p), TermD::Find(p), TermD::Any(p)]);
+            }
+            for _ in 0..n(1500, 20000) {
+                let term = rng.pick(&t).clone();
+                let full_needed = !is_core_terminal(&term);
+                let cands: Vec<&&str> = crate::chains::CANARY_CHAINS.iter().filter(|c| !full_needed || c.len() <= 1).collect();
+                let kinds = **rng.pick(&cands);
+                let ops: Vec<OpD> = kinds.chars().map(|k| gen_op(&mut rng, k)).collect();
+                let len = gen_len(&mut rng, thorough).min(300);
+                let input = gen_input(&mut rng, len, true);
+                let mut sets: Vec<Vec<SetD>> = vec![vec![]; ops.len() + 1];
+                sets[0] = gen_src_sets(&mut rng, len, false);
+                // huge chunk sizes allocate per-worker buffers on iterator sources (known finding C15)
+                sets[0].retain(|s| !matches!(s, SetD::CsEnum(ChunkSize::Exact(c)) if c.get() > 100_000));
+                let src_kind = *rng.pick(&['V', 'V', 'K', 'U']);
+                let mut c = Case { src_kind, input, ops, sets, term, mode: Mode::Free(if rng.chance(2, 3) { rng.next() | 1 } else { 0 }), panic_at: None };
+                let p = final_params(&c);
+                if !p.is_sequential() && !c.has_eager() && !c.ops.is_empty() && rng.chance(1, 3) && len <= 120 {
+                    let maxw = match p.num_threads {
+                        NumThreads::Auto => 8,
+                        NumThreads::Max(n) => n.get().min(16) as u32,
+                    };
+                    c.mode = Mode::Ctl(gen_schedule(&mut rng, len, maxw));
+                }
+                if with_panic {
+                    // panic at an invocation the sequential evaluation reaches
+                    let ex = expect(&c);
+                    let cand: Vec<(u32, u64)> = ex.log.iter().copied().filter(|e| (e.0 as usize) < c.ops.len() || e.0 == ST_FOR_EACH || e.0 == ST_PRED).collect();
+                    if cand.is_empty() {
+                        continue;
+                    }
+                    c.panic_at = Some(*rng.pick(&cand));
+                }
+                writeln!(out, "BEGIN\t{}", c.enc())?;
+                out.flush()?;
+                emit_case(out, if with_panic { "panic" } else { "ownership" }, &c, false)?;
+                total_c.set(total_c.get() + 1);
             }
         }
         _ => {
